@@ -83,7 +83,7 @@ def run_reader(repo, version, same_distance=False, named=True, use_memmap=False,
     else:
         elem['wav'] = Arr((), sym('fwav', W), unit=unit_atom('micron'))
     filters = GenList(W, elem)
-    dr = symarr('dr', ('two',), unit=unit_atom('kpc')) if aperture_dependent else None
+    dr = symarr('dr', ('two',), unit=sym('unit:Ud')) if aperture_dependent else None      # given in any length unit
     kwargs = {'distance_range': dr, 'remove_resolved': False}
     if version == 2:
         kwargs['use_memmap'] = use_memmap
